@@ -337,10 +337,12 @@ def handle (line : String) : String :=
   | ["bsconc", _, _, _, _, _, impl] => (if impl.startsWith "consistent:" then impl else "consistent") ++ "\t-"
   | ["req", _, impl] => (if impl.startsWith "status:" || impl == "error" || impl.startsWith "skip:" then impl else "status-or-error") ++ "\t-"
   | ["reqmut", _, _, _, impl] => (if impl.startsWith "status:" || impl == "error" || impl.startsWith "skip:" then impl else "status-or-error") ++ "\t-"
+  | ["resp", _, _, _, _, impl] => (if impl == "response" || impl == "error" then impl else "response-or-error") ++ "\t-"
   | ["resp", _, _, _, impl] => (if impl == "response" || impl == "error" then impl else "response-or-error") ++ "\t-"
   | ["batch", mode, world, _, _, _, impl] => doServe mode world impl
   | ["serve", mode, world, impl] => doServe mode world impl
   | ["access3", mode, world, spine, checker, _, impl] => doAccess mode world spine checker impl
+  | ["access3seq", mode, world, spine, checker, _, impl] => doAccess mode world spine checker impl
   | ["c16x", n, p, _] =>
     match n.toNat?, Bytes.ofHex p with
     | some n, some p => s!"{c16Row n p}\t-"
